@@ -14,6 +14,10 @@ func main() {
 		childMain(mode) // this binary re-executed as the stdio peer of a StdioClient
 		return
 	}
+	if dir := os.Getenv("VERIF_LIFECYCLE_PROBE"); dir != "" {
+		probeMalformed(dir) // prints what the clients do under every malformed-answer scenario (see malformed.go)
+		return
+	}
 	hk.Main(&hk.Component{Name: "lifecycle", Rule: "server: histories over {RegisterTool, UnregisterTools, RegisterPrompt, RegisterResource(s), RegisterResourceTemplate (incl. empty keys), initialize(v)} " +
 		"with v over supported versions, near misses, empty, long, control and non-ASCII strings, against the real streamable server (raw POSTs; 3 session modes, JSON and SSE answers) " +
 		"and through the three real clients against the real streamable / SSE / stdio servers: all 8 subsets of capability kinds x all versions, every pair of registrations between three initializes, seeded random longer ones; " +
